@@ -29,6 +29,9 @@ def prepare_gdd(weather_df, sim_start, sim_end, gdd, crop, sum_fun):
 
     # add gdd as column
     assert len(gdd) == len(weather_df), "The length of 'gdd' does not match the number of rows in 'weather_df', check planting date is on or after simulation start date in first year."
+    # (only the dates are needed here: the columns added below must not collide
+    # with columns of the same name that the user's table may have)
+    weather_df=weather_df[['Date']].copy()
     weather_df['gdd']=gdd
 
     # Convert mm/dd formatted dates to datetime objects
